@@ -32,6 +32,7 @@ import (
 type dpReq struct {
 	Mode     string   `json:"mode"`
 	KnownIDs []string `json:"known_ids"`
+	Property string   `json:"property"` // run only the scenarios that test this property ("" = all)
 }
 type dpOut struct {
 	Verdict string      `json:"verdict"`
@@ -50,6 +51,7 @@ type dpScenario struct {
 	ViaCaller   bool   `json:"via_contract"`  // the precompile is called by a contract, not by the signer
 	Value       int64  `json:"tx_value"`      // value sent with the transaction to the called address
 	OtherPayout bool   `json:"withdraw_addr"` // the withdraw address is a third account
+	Revert      bool   `json:"frame_reverts"` // the call frame that made the precompile call reverts afterwards (C05)
 }
 
 func (s *PrecompileTestSuite) dpRun(sc dpScenario) string {
@@ -146,11 +148,27 @@ func (s *PrecompileTestSuite) dpRun(sc dpScenario) string {
 	}
 	s.stateDB.SubBalance(origin, big.NewInt(sc.Value))
 	s.stateDB.AddBalance(to, big.NewInt(sc.Value))
+	snap := s.stateDB.Snapshot() // evm.Call snapshots on entering the frame that makes the precompile call
 	if _, err := s.precompile.Run(evm, contract, false); err != nil {
 		return "scenario: precompile call failed: " + err.Error()
 	}
+	if sc.Revert {
+		s.stateDB.RevertToSnapshot(snap) // the frame fails after the precompile call returned (caught by its parent)
+	}
 	if err := s.stateDB.Commit(); err != nil {
 		return "scenario: commit failed: " + err.Error()
+	}
+	if sc.Revert {
+		// C05: a reverted frame leaves no trace: the native message must still find the same amount to pay
+		fork2, _ := s.ctx.CacheContext()
+		again, err := native(fork2)
+		if err != nil {
+			return "the withdrawal made inside the reverted frame persists: the native message now fails: " + err.Error()
+		}
+		if again.String() != paidCoins.String() {
+			return fmt.Sprintf("the withdrawal made inside the reverted frame persists: the native message now pays %s instead of %s", again, paidCoins)
+		}
+		return ""
 	}
 	supply1 := s.app.BankKeeper.GetSupply(s.ctx, utils.BaseDenom).Amount.BigInt()
 	if supply0.Cmp(supply1) != 0 {
@@ -178,17 +196,21 @@ func (s *PrecompileTestSuite) TestVerifReplayDistributionPrecompile() {
 		known[k] = true
 	}
 	scenarios := []dpScenario{
-		{"", "signer withdraws rewards directly", "rewards", false, 0, false},
-		{"", "signer withdraws rewards through a contract, no value sent", "rewards", true, 0, false},
-		{"F5-Rewards", "signer sends 1 to a contract that withdraws the signer's rewards", "rewards", true, 1, false},
-		{"F5-Rewards", "signer withdraws rewards directly, withdraw address is a third account", "rewards", false, 0, true},
-		{"", "validator withdraws commission directly, no value sent", "commission", false, 0, false},
-		{"F5-Commission", "validator sends 1 to a contract that withdraws the validator's commission", "commission", true, 1, false},
+		{"", "signer withdraws rewards directly", "rewards", false, 0, false, false},
+		{"", "signer withdraws rewards through a contract, no value sent", "rewards", true, 0, false, false},
+		{"F5-Rewards", "signer sends 1 to a contract that withdraws the signer's rewards", "rewards", true, 1, false, false},
+		{"F5-Rewards", "signer withdraws rewards directly, withdraw address is a third account", "rewards", false, 0, true, false},
+		{"", "validator withdraws commission directly, no value sent", "commission", false, 0, false, false},
+		{"F5-Commission", "validator sends 1 to a contract that withdraws the validator's commission", "commission", true, 1, false, false},
+		{"F6-Rewards", "a contract withdraws the signer's rewards in a call frame that then reverts", "rewards", true, 0, false, true},
 	}
 	out := dpOut{Verdict: "NOT-REPRODUCED", Bound: fmt.Sprintf("%d whole-transaction scenarios of distribution.withdrawDelegatorRewards / withdrawValidatorCommission (who calls x transaction value x withdraw address)", len(scenarios))}
 	var firstKnown *dpOut
 	unknown := false
 	for _, sc := range scenarios {
+		if req.Property != "" && (req.Property == "C05") != sc.Revert {
+			continue // frame-revert scenarios test C05, the others C02
+		}
 		out.Cases++
 		bad := s.dpRun(sc)
 		if bad == "" {
